@@ -34,6 +34,22 @@ M_NOTE = (
     "FAILURE (abort, not a panic) of the row-group buffers 16 * w * block_height bytes is outside the model."
 )
 
+Q_CLAIM = (
+    "Encoder::write_surface_impl (section Q, TrapMip.lean): write_surface_trapfree - for every encoder state with "
+    "C11's invariant (any layout, cursor, generation on/off), any cache state, any image of the public API (any "
+    "size incl. a wrong one, address, pitch, colour, <= 2^62-16 bytes), filter, alpha setting, cancelled or not, the "
+    "trapping mirror of encoder.rs:156-241 (current.mipmap_level + 1 on u8, saturating_sub, the progress sub-ranges "
+    "level as i32 + 1 and from_to's debug_assert on 1 - 0.4^l over exact rationals, Vec::with_capacity, the "
+    "look-ahead, MipmapCache::generate with C16's section Q behind it, the u8 counter level += 1) returns some of "
+    "exactly Enc.write, so C11's history theorems hold in the trapping semantics. Seed C11b (mipmaps - 1) as a "
+    "variant returns none (sizes[0] of an empty list) on the README's history. "
+)
+Q_NOTE = (
+    " Section Q: see C16's note (assumed contract of the resize crate, allocator); binary32 rounding of powi in "
+    "get_level_progress_range is outside the model (the assertion from <= to is proved for the exact values; 0.4^l is "
+    "strictly decreasing by a factor far above rounding error until it underflows to 0, where from = to)."
+)
+
 CFG = {
     "claim": "Partial. PROVED about the model (EncTotal.lean), for all sizes, writer loops, fault offsets and all "
              "extended-real inputs: (1) size rule - over the table of all 73 formats the encoder refuses exactly the "
@@ -72,7 +88,7 @@ CFG = {
              "(4) the only data-dependent loop of the block encoders (bcn_util::refine_endpoints) runs at "
              "most max_iter <= 10 times at every quality, whatever the float comparison does; (5) empty images give "
              "Ok and zero bytes in every family (incl. the repaired bi-planar path) even with a writer that accepts "
-             "nothing. " + M_CLAIM +
+             "nothing. " + M_CLAIM + Q_CLAIM +
              "EXPLORED, not proved: panic- and hang-freedom of the float bodies of the BC1/BC4/BC7 block "
              "encoders, the float arithmetic of the error diffusion and the pixel readers - dds::encode and Encoder::write_surface run under "
              "catch_unwind + a 20 s watchdog in both build profiles over 73 formats x sizes 0..40 x NaN/inf/huge/"
@@ -89,7 +105,7 @@ CFG = {
             "bit-level theorems that the compiled code evaluates f32 `*`, `+`, `min`, `max`, `as uN`, `as f64` and f64 "
             "`*`, `+`, `as u16` as IEEE-754 binary32 / binary64 operations (ConvF32.lean, ConvF64.lean; no FMA "
             "contraction, no flush-to-zero, no excess precision), which the S/U/W cases compare on bit patterns; "
-            "std's write_all contract." + M_NOTE,
+            "std's write_all contract." + M_NOTE + Q_NOTE,
     "profiles": ["release", "checked"],
     "level": "proof",
     "explanation": "level=proof refers to the modelled part (size rule, writer faults, quantiser ranges, loop bounds, "
